@@ -60,6 +60,7 @@ func vfKeys() []string {
 func TestVerifC17Ring(t *testing.T) {
 	r := vfev.New("C17", "ring")
 	defer r.Finish()
+	defer r.RecoverPanic()
 	universe := []string{"a", "b", "ab", "a1", "1a"}
 	keys := vfKeys()
 	crc := func(d []byte) uint32 { return crc32.ChecksumIEEE(d) }
